@@ -212,7 +212,8 @@ def scenarios(quick):
 def run(ctx: core.Ctx) -> core.Result:
     scns = scenarios(ctx.quick)
     res = explore.explore_family(scns, D=0, seed=ctx.seed)
-    deep = [x for x in scns if x.op == "find" and x.n == (1 if ctx.quick else 2) and not x.flood]
+    # one deviation: quick for the C-FIND n=1 family, thorough for every arrival scenario
+    deep = [x for x in scns if not x.flood and (not ctx.quick or (x.op == "find" and x.n == 1))]
     res2 = explore.explore_family(deep, D=1, seed=ctx.seed)
     viol, seen = [], set()
     tot = {"executions": 0, "steps": 0, "decisions": 0}
